@@ -63,6 +63,8 @@ def make_world(seed_rng_key, run):
         ref = ref.iloc[rng.permutation(len(ref))]
         if len(anti) > 1:
             anti = anti.iloc[rng.permutation(len(anti))]
+    if len(anti) and rng.random() < 0.12:
+        tgt = tgt.iloc[:0]          # no on-target bin at all (an off-target-only run): fix then works from the antitargets alone
     w["tgt"], w["anti"], w["ref"] = C04._cna(tgt), C04._cna(anti), C04._cna(ref, "ref")
     rows = []
     for c in ("chr2", "chr10"):
